@@ -13,14 +13,15 @@ import YaraModel.Lemmas.ReAlgebra
 namespace YaraModel.ReEmit
 open YaraModel.Re YaraModel.ReVm
 
-/-- the fragment covered by the VM soundness proof: every node kind except character classes `[...]`, counted repeats
-    `e{n,m}` and the empty alternative — hex patterns (bytes, masks, negations, jumps, nested alternatives) entirely -/
+/-- the fragment covered by the VM soundness proof: every node kind except counted repeats `e{n,m}` of a non-dot body
+    and the empty alternative — hex patterns (bytes, masks, negations, jumps, nested alternatives) entirely -/
 inductive Frag : Re → Prop
   | lit (b) : Frag (.lit b)
   | masked (v m) : Frag (.masked v m)
   | notLit (b) : Frag (.notLit b)
   | maskedNot (v m) : Frag (.maskedNot v m)
   | any : Frag .any
+  | cls (bm : Nat) (neg : Bool) : Frag (.cls bm neg)
   | jump (lo hi : Nat) (g : Bool) : lo ≤ hi → hi < 65536 → Frag (.rangeAny lo hi g)
   | wordCh : Frag .wordCh
   | nonWordCh : Frag .nonWordCh
@@ -39,7 +40,7 @@ inductive Frag : Re → Prop
 
 /-- length of the emitted code -/
 def clen : Re → Nat
-  | .lit _ => 2 | .notLit _ => 2 | .masked _ _ => 3 | .maskedNot _ _ => 3 | .any => 1 | .rangeAny _ _ _ => 5
+  | .lit _ => 2 | .notLit _ => 2 | .masked _ _ => 3 | .maskedNot _ _ => 3 | .any => 1 | .rangeAny _ _ _ => 5 | .cls _ _ => 34
   | .wordCh => 1 | .nonWordCh => 1 | .space => 1 | .nonSpace => 1 | .digit => 1 | .nonDigit => 1
   | .bol => 1 | .eol => 1 | .wordB => 1 | .nonWordB => 1
   | .star a _ => 4 + clen a + 3
@@ -57,6 +58,8 @@ inductive Seg (code : Code) : Re → Nat → Nat → Prop
   | maskedNot {a : Nat} {v m : UInt8} : u8 code a = OP_MASKED_NOT_LITERAL → u8 code (a + 1) = v.toNat → u8 code (a + 2) = m.toNat →
       Seg code (.maskedNot v m) a (a + 3)
   | any {a : Nat} : u8 code a = OP_ANY → Seg code .any a (a + 1)
+  | cls {a bm : Nat} {neg : Bool} : u8 code a = OP_CLASS → u8 code (a + 1) = (if neg then 1 else 0) →
+      (∀ c : UInt8, classBit code a c = inBitmap bm c) → Seg code (.cls bm neg) a (a + 34)
   | jump {a lo hi : Nat} {g : Bool} : (u8 code a = OP_REPEAT_ANY_GREEDY ∨ u8 code a = OP_REPEAT_ANY_UNGREEDY) →
       u16 code (a + 1) = lo → u16 code (a + 3) = hi → lo ≤ hi → Seg code (.rangeAny lo hi g) a (a + 5)
   | wordCh {a : Nat} : u8 code a = OP_WORD_CHAR → Seg code .wordCh a (a + 1)
@@ -79,7 +82,7 @@ inductive Seg (code : Code) : Re → Nat → Nat → Prop
 
 theorem Seg.len {code : Code} {r : Re} {a b : Nat} (h : Seg code r a b) : b = a + clen r := by
   induction h with
-  | lit _ _ | notLit _ _ | masked _ _ _ | maskedNot _ _ _ | any _ | jump _ _ _ _ | wordCh _ | nonWordCh _ | space _ | nonSpace _ | digit _ | nonDigit _ | bol _ | eol _ | wordB _ | nonWordB _ => simp [clen]
+  | lit _ _ | notLit _ _ | masked _ _ _ | maskedNot _ _ _ | any _ | cls _ _ _ | jump _ _ _ _ | wordCh _ | nonWordCh _ | space _ | nonSpace _ | digit _ | nonDigit _ | bol _ | eol _ | wordB _ | nonWordB _ => simp [clen]
   | star _ _ _ _ _ ih => simp only [clen]; omega
   | plus _ _ _ ih => simp only [clen]; omega
   | cat _ _ ih1 ih2 => simp only [clen]; omega
@@ -87,7 +90,7 @@ theorem Seg.len {code : Code} {r : Re} {a b : Nat} (h : Seg code r a b) : b = a 
 
 theorem Seg.pos {code : Code} {r : Re} {a b : Nat} (h : Seg code r a b) : a < b := by
   induction h with
-  | lit _ _ | notLit _ _ | masked _ _ _ | maskedNot _ _ _ | any _ | jump _ _ _ _ | wordCh _ | nonWordCh _ | space _ | nonSpace _ | digit _ | nonDigit _ | bol _ | eol _ | wordB _ | nonWordB _ => omega
+  | lit _ _ | notLit _ _ | masked _ _ _ | maskedNot _ _ _ | any _ | cls _ _ _ | jump _ _ _ _ | wordCh _ | nonWordCh _ | space _ | nonSpace _ | digit _ | nonDigit _ | bol _ | eol _ | wordB _ | nonWordB _ => omega
   | star _ _ _ _ _ ih => omega
   | plus _ _ _ ih => omega
   | cat _ _ ih1 ih2 => omega
@@ -137,7 +140,7 @@ variable (fl : Flags) (buf : Bytes)
 theorem lang_entry {code : Code} {r : Re} {a b : Nat} (hs : Seg code r a b) (K : Lang) (q q' : Nat) :
     lang fl buf r a K a (-1) .run q q' → ∃ t, Re.Matches fl buf r q t ∧ K t q' := by
   induction hs generalizing K q q' with
-  | lit _ _ | notLit _ _ | masked _ _ _ | maskedNot _ _ _ | any _ | wordCh _ | nonWordCh _ | space _ | nonSpace _ | digit _ | nonDigit _ | bol _ | eol _ | wordB _ | nonWordB _ => simp [lang]
+  | lit _ _ | notLit _ _ | masked _ _ _ | maskedNot _ _ _ | any _ | cls _ _ _ | wordCh _ | nonWordCh _ | space _ | nonSpace _ | digit _ | nonDigit _ | bol _ | eol _ | wordB _ | nonWordB _ => simp [lang]
   | @jump a lo hi g _ _ _ _ =>
     intro h
     simp only [lang, if_true] at h
@@ -181,7 +184,7 @@ theorem lang_entry {code : Code} {r : Re} {a b : Nat} (hs : Seg code r a b) (K :
 theorem lang_end {code : Code} {r : Re} {a b : Nat} (hs : Seg code r a b) (K : Lang) (rc : Int) (md : Mode) :
     lang fl buf r a K b rc md = K := by
   induction hs generalizing K with
-  | lit _ _ | notLit _ _ | masked _ _ _ | maskedNot _ _ _ | any _ | jump _ _ _ _ | wordCh _ | nonWordCh _ | space _ | nonSpace _ | digit _ | nonDigit _ | bol _ | eol _ | wordB _ | nonWordB _ => simp [lang]
+  | lit _ _ | notLit _ _ | masked _ _ _ | maskedNot _ _ _ | any _ | cls _ _ _ | jump _ _ _ _ | wordCh _ | nonWordCh _ | space _ | nonSpace _ | digit _ | nonDigit _ | bol _ | eol _ | wordB _ | nonWordB _ => simp [lang]
   | @star x a m g _ _ h1 _ _ ih =>
     have hm : m = a + 4 + clen x := by have := h1.len; omega
     have p1 := h1.pos
@@ -263,7 +266,7 @@ def Valid : Re → Nat → Nat → Int → Mode → Prop
 theorem valid_range {code : Code} {r : Re} {a b : Nat} (hs : Seg code r a b) {ip : Nat} {rc : Int} {m : Mode}
     (h : Valid r a ip rc m) : a ≤ ip ∧ ip < b := by
   induction hs generalizing ip with
-  | lit _ _ | notLit _ _ | masked _ _ _ | maskedNot _ _ _ | any _ | jump _ _ _ _ | wordCh _ | nonWordCh _ | space _ | nonSpace _ | digit _ | nonDigit _ | bol _ | eol _ | wordB _ | nonWordB _ => simp only [Valid] at h; omega
+  | lit _ _ | notLit _ _ | masked _ _ _ | maskedNot _ _ _ | any _ | cls _ _ _ | jump _ _ _ _ | wordCh _ | nonWordCh _ | space _ | nonSpace _ | digit _ | nonDigit _ | bol _ | eol _ | wordB _ | nonWordB _ => simp only [Valid] at h; omega
   | @star x a m g _ _ h1 _ _ ih =>
     have hm : m = a + 4 + clen x := by have := h1.len; omega
     have p1 := h1.pos
@@ -301,7 +304,7 @@ theorem valid_range {code : Code} {r : Re} {a b : Nat} (hs : Seg code r a b) {ip
 
 theorem valid_first {code : Code} {r : Re} {a b : Nat} (hs : Seg code r a b) : Valid r a a (-1) .run := by
   induction hs with
-  | lit _ _ | notLit _ _ | masked _ _ _ | maskedNot _ _ _ | any _ | wordCh _ | nonWordCh _ | space _ | nonSpace _ | digit _ | nonDigit _ | bol _ | eol _ | wordB _ | nonWordB _ => simp [Valid]
+  | lit _ _ | notLit _ _ | masked _ _ _ | maskedNot _ _ _ | any _ | cls _ _ _ | wordCh _ | nonWordCh _ | space _ | nonSpace _ | digit _ | nonDigit _ | bol _ | eol _ | wordB _ | nonWordB _ => simp [Valid]
   | jump _ _ _ _ => simp [Valid]
   | star _ _ _ _ _ _ => exact .inl ⟨rfl, rfl, rfl⟩
   | plus _ _ _ ih => exact .inl ih
@@ -530,6 +533,26 @@ theorem consume_nonDigit {e : Env} (h : FwdByte e) {bm : Nat} {f : Fiber} (hop :
     simp only [hop, OP_ANY, OP_REPEAT_ANY_GREEDY, OP_REPEAT_ANY_UNGREEDY, OP_LITERAL, OP_NOT_LITERAL, OP_MASKED_LITERAL, OP_MASKED_NOT_LITERAL, OP_CLASS, OP_WORD_CHAR, OP_NON_WORD_CHAR, OP_SPACE, OP_NON_SPACE, OP_DIGIT, OP_NON_DIGIT] at ht
     simp only [Nat.reduceEqDiff, or_self, if_false, if_true] at ht
     simpa [isWordCharAt] using ht
+  rwa [specFlags_cs] at this
+
+theorem consume_cls {e : Env} (h : FwdByte e) {bm : Nat} {f : Fiber} {cb : Nat} {neg : Bool} (hop : u8 e.code f.ip = OP_CLASS)
+    (hneg : u8 e.code (f.ip + 1) = (if neg then 1 else 0)) (hbits : ∀ c : UInt8, classBit e.code f.ip c = inBitmap cb c)
+    (hc : consumeOk e bm f = true) :
+    Re.Matches (specFlags e.fl) e.buf (.cls cb neg) (e.start + bm) (e.start + bm + 1) := by
+  have hq := consume_in_buf h hc
+  have ht := consumeTest_of h hc
+  have : Re.Matches (specFlags e.fl) e.buf (.cls cb neg) (e.start + bm) (e.start + bm + (specFlags e.fl).cs) := by
+    apply Re.Matches.cls
+    apply charOk_of rfl hq
+    unfold consumeTest at ht
+    simp only [hop, OP_ANY, OP_REPEAT_ANY_GREEDY, OP_REPEAT_ANY_UNGREEDY, OP_LITERAL, OP_NOT_LITERAL, OP_MASKED_LITERAL, OP_MASKED_NOT_LITERAL, OP_CLASS] at ht
+    simp only [Nat.reduceEqDiff, or_self, if_false, if_true] at ht
+    rw [hneg, hbits, hbits] at ht
+    unfold testCls specFlags
+    simp only
+    cases neg
+    · simpa using ht
+    · simpa using ht
   rwa [specFlags_cs] at this
 
 /-! ### zero-width instructions against the specification (forwards, byte mode) -/
@@ -826,6 +849,11 @@ theorem seg_step (e : Env) (h : FwdByte e) {r : Re} {a b : Nat} (hs : Seg e.code
     simp only [Valid] at hst
     exact leaf_step e .any a 1 K f md OP_ANY hst.1 hst.2.1 hst.2.2 h1 (by decide) (by unfold isCtl; decide) (by decide) (by decide) (by decide) (by omega)
       (fun ip rc md => by simp [lang]) (fun bm hc => consume_any h (by rw [hst.1]; exact h1) hc)
+  | @cls a cb neg h1 h2 h3 =>
+    intro K f md hst
+    simp only [Valid] at hst
+    exact leaf_step e (.cls cb neg) a 34 K f md OP_CLASS hst.1 hst.2.1 hst.2.2 h1 (by decide) (by unfold isCtl; decide) (by decide) (by decide) (by decide) (by omega)
+      (fun ip rc md => by simp [lang]) (fun bm hc => consume_cls h (by rw [hst.1]; exact h1) (by rw [hst.1]; exact h2) (by rw [hst.1]; exact h3) hc)
   | @wordCh a h1 =>
     intro K f md hst
     simp only [Valid] at hst
@@ -1308,7 +1336,7 @@ theorem match_not_any {op : Nat} (h : op = OP_MATCH) : ¬ (op = OP_REPEAT_ANY_GR
 theorem valid_run {code : Code} {r : Re} {a b : Nat} (hs : Seg code r a b) {ip : Nat} {rc : Int} {m : Mode}
     (hv : Valid r a ip rc m) (hn : ¬ (u8 code ip = OP_REPEAT_ANY_GREEDY ∨ u8 code ip = OP_REPEAT_ANY_UNGREEDY)) : m = .run := by
   induction hs generalizing ip with
-  | lit _ _ | notLit _ _ | masked _ _ _ | maskedNot _ _ _ | any _ | wordCh _ | nonWordCh _ | space _ | nonSpace _ | digit _ | nonDigit _ | bol _ | eol _ | wordB _ | nonWordB _ => simp only [Valid] at hv; exact hv.2.2
+  | lit _ _ | notLit _ _ | masked _ _ _ | maskedNot _ _ _ | any _ | cls _ _ _ | wordCh _ | nonWordCh _ | space _ | nonSpace _ | digit _ | nonDigit _ | bol _ | eol _ | wordB _ | nonWordB _ => simp only [Valid] at hv; exact hv.2.2
   | jump h1 _ _ _ => simp only [Valid] at hv; rw [hv.1] at hn; exact absurd h1 hn
   | @star x a m' g _ _ h1 _ _ ih =>
     simp only [Valid] at hv
@@ -1458,6 +1486,7 @@ theorem emit_len {r : Re} (hf : Frag r) : ∀ s, (emit false r s).1.length = cle
   induction hf with
   | lit _ | masked _ _ | notLit _ | maskedNot _ _ | any | wordCh | nonWordCh | space | nonSpace | digit | nonDigit | bol | eol | wordB | nonWordB => intro s; simp [emit, clen]
   | jump _ _ _ _ _ => intro s; simp [emit, clen, le16]
+  | cls _ _ => intro s; simp [emit, clen, bitmapBytes]
   | star g _ ih =>
     intro s
     simp only [emit, clen, List.length_append, List.length_cons, List.length_nil, leI16, le16]
@@ -1552,6 +1581,34 @@ theorem seg_of_emit {r : Re} (hf : Frag r) : ∀ (s : Nat) (code : Code) (a : Na
     have h0 := h 0 (by simp)
     simp at h0
     exact .any (by rw [h0]; rfl)
+  | cls cb neg =>
+    intro s code a _ h
+    simp only [emit] at h
+    have h0 := h 0 (by simp [bitmapBytes])
+    have h1 := h 1 (by simp [bitmapBytes])
+    simp at h0 h1
+    refine .cls (by rw [h0]; rfl) (by rw [h1]; cases neg <;> rfl) ?_
+    intro c
+    unfold classBit inBitmap
+    have hi : c.toNat / 8 < 32 := by have := c.toNat_lt; omega
+    have hb := h (2 + c.toNat / 8) (by simp [bitmapBytes]; omega)
+    have e1 : a + (2 + c.toNat / 8) = a + 2 + c.toNat / 8 := by omega
+    rw [e1] at hb
+    rw [hb]
+    have e2 : (0xA5 :: (if neg = true then (1 : UInt8) else 0) :: bitmapBytes cb)[2 + c.toNat / 8]? = (bitmapBytes cb)[c.toNat / 8]? := by
+      have : 2 + c.toNat / 8 = (c.toNat / 8 + 1) + 1 := by omega
+      rw [this]; rfl
+    rw [e2]
+    unfold bitmapBytes
+    rw [List.getElem?_map, List.getElem?_range hi]
+    simp only [Option.map_some, Option.getD_some]
+    have e3 : (UInt8.ofNat (cb / 2 ^ (8 * (c.toNat / 8)) % 256)).toNat = cb / 2 ^ (8 * (c.toNat / 8)) % 256 := by simp
+    rw [e3]
+    have e4 : (256 : Nat) = 2 ^ 8 := by decide
+    rw [e4, Nat.testBit_mod_two_pow, Nat.testBit_div_two_pow]
+    have e5 : c.toNat % 8 < 8 := Nat.mod_lt _ (by omega)
+    have e6 : c.toNat % 8 + 8 * (c.toNat / 8) = c.toNat := by omega
+    simp [e5, e6]
   | wordCh =>
     intro s code a _ h
     simp only [emit] at h
